@@ -7,9 +7,11 @@ from urllib.parse import urlparse, parse_qs
 from checks import upstream as U
 
 
-def base_conf(cache_conf, meta_size=(1, 1), refresh_before=None, on_error_color='#ff0000', layer='lay'):
+def base_conf(cache_conf, meta_size=(1, 1), refresh_before=None, on_error_color='#ff0000', layer='lay', link=False):
     cache = {'grids': ['g'], 'sources': ['src'], 'format': 'image/png', 'meta_size': list(meta_size),
              'meta_buffer': 0, 'cache': cache_conf, 'image': {'colors': 0, 'mode': 'RGB'}}
+    if link:
+        cache['link_single_color_images'] = link
     if refresh_before:
         cache['refresh_before'] = refresh_before
     return {
@@ -24,6 +26,27 @@ def base_conf(cache_conf, meta_size=(1, 1), refresh_before=None, on_error_color=
         'globals': {'cache': {'base_dir': '/simfs/cache', 'lock_dir': '/simfs/locks', 'tile_lock_dir': '/simfs/tilelocks'},
                     'image': {'paletted': False}},
     }
+
+
+def url_for(service, coord, layer='lay'):
+    """request (path, query) for the internal tile coordinate (x, y, z) of grid 'g' (origin ll, z >= 1)"""
+    x, y, z = coord
+    n = 1 << z
+    if service == 'tms':
+        return '/tms/1.0.0/%s/EPSG3857/%d/%d/%d.png' % (layer, z - 1, x, y), ''
+    if service == 'kml':
+        return '/kml/%s/EPSG3857/%d/%d/%d.png' % (layer, z, x, y), ''
+    if service == 'wmts':
+        return '/wmts/%s/g/%02d/%d/%d.png' % (layer, z, x, n - 1 - y), ''
+    if service == 'wmtskvp':
+        return '/service', ('service=WMTS&request=GetTile&version=1.0.0&layer=%s&style=&tilematrixset=g&tilematrix=%02d'
+                            '&tilerow=%d&tilecol=%d&format=image/png' % (layer, z, n - 1 - y, x))
+    size = 2 * U.H / n
+    k = 2 if service == 'wms4' else 1
+    return '/service', ('service=WMS&request=GetMap&version=1.1.1&layers=%s&styles=&srs=EPSG:3857&bbox=%r,%r,%r,%r'
+                        '&width=%d&height=%d&format=image/png%s' % (
+                            layer, -U.H + x * size, -U.H + y * size, -U.H + (x + k) * size, -U.H + (y + k) * size,
+                            U.TS * k, U.TS * k, '&tiled=true' if k == 1 else ''))
 
 
 def make_app(conf):
@@ -85,26 +108,42 @@ class SimHTTP(object):
         self.log = []
         self.gen = 0
         self.fail_code = None
+        self.plan = None
+        self.ocean = False       # False | True | (r, g, b): colour of the constant-colour 'ocean' tiles
 
     def open(self, client, url, data=None, method=None):
         from mapproxy.client.http import HTTPClientError
         from PIL import Image
         q = dict((k.lower(), v[0]) for k, v in parse_qs(urlparse(url).query).items())
         self.gen += 1
-        entry = {'gen': self.gen, 'url': url, 'ok': None, 't': self.world.clock.now}
-        self.log.append(entry)
         sched = self.world.sched
+        me = sched._me() if sched is not None else None
+        entry = {'gen': self.gen, 'url': url, 'ok': None, 't': self.world.clock.now, 't0': self.world.clock.now,
+                 'task': me.name if me else None, 'proc': me.proc.name if me else None,
+                 'seq0': len(sched.log) if sched is not None else 0}
+        try:
+            entry['bbox'] = tuple(float(x) for x in q['bbox'].split(','))
+            entry['size'] = (int(q['width']), int(q['height']))
+        except (KeyError, ValueError):
+            entry['bbox'], entry['size'] = None, None
+        self.log.append(entry)
+        plan = self.plan(entry) if self.plan is not None else {'yields': 0, 'latency': 0.001, 'fail': False}
         if sched is not None:
             sched.yield_point('http', self.gen)
+            for _ in range(plan.get('yields', 0)):
+                sched.yield_point('http-wait', self.gen)
         import time
-        time.sleep(0.001)
-        if self.fail_code:
+        if plan.get('latency'):
+            time.sleep(plan['latency'])
+        entry['t1'] = self.world.clock.now
+        entry['seq1'] = len(sched.log) if sched is not None else 0
+        if self.fail_code or plan.get('fail'):
             entry['ok'] = False
-            raise HTTPClientError('HTTP Error "%s": %d' % (url, self.fail_code), response_code=self.fail_code)
-        bbox = tuple(float(x) for x in q['bbox'].split(','))
-        size = (int(q['width']), int(q['height']))
-        entry['bbox'], entry['size'] = bbox, size
-        img = Image.frombytes('RGB', size, U.render(bbox, size, self.gen))
+            code = self.fail_code or 500
+            raise HTTPClientError('HTTP Error "%s": %d' % (url, code), response_code=code)
+        if sched is not None:
+            sched.check_alive()
+        img = Image.frombytes('RGB', entry['size'], U.render(entry['bbox'], entry['size'], self.gen, ocean=self.ocean))
         buf = BytesIO()
         img.save(buf, 'PNG')
         entry['ok'] = True
